@@ -136,7 +136,7 @@ func main() {
 		}
 		parsed = append(parsed, parsedFile{p, f})
 	}
-	if usesAtomic {
+	if usesAtomic || usesSync {
 		var files []*ast.File
 		for _, pf := range parsed {
 			files = append(files, pf.f)
@@ -197,6 +197,9 @@ func main() {
 	// Generated support file.
 	var g bytes.Buffer
 	fmt.Fprintf(&g, "// Code generated by verif instr. DO NOT EDIT.\n\npackage %s\n\n", pkgName)
+	if onceSites > 0 {
+		g.WriteString("import \"sync\"\n\n")
+	}
 	g.WriteString("// VerifHook, when non-nil, is called before every statement of the package.\n")
 	g.WriteString("var VerifHook func(uint32)\n\n")
 	g.WriteString("func verifStep(n uint32) {\n\tif h := VerifHook; h != nil {\n\t\th(n)\n\t}\n}\n\n")
@@ -205,6 +208,9 @@ func main() {
 	g.WriteString("func verifLock(kind int, lock any, site uint32) {\n\tif h := VerifLockHook; h != nil {\n\t\th(kind, lock, site)\n\t}\n}\n\n")
 	if atomicSites > 0 {
 		g.WriteString(atomHelpers)
+	}
+	if onceSites > 0 {
+		g.WriteString(onceHelper)
 	}
 	g.WriteString("// VerifShared returns the names of and pointers to every package-level variable.\n")
 	g.WriteString("func VerifShared() ([]string, []any) {\n\treturn []string{")
@@ -676,7 +682,7 @@ func instrExprFuncLits(e ast.Expr, fn string) {
 // site carries the same flag as "a lock has just been acquired", so the
 // schedule's "pre-empt at the k-th synchronisation event of this operation"
 // entries address these points directly.
-var atomicSites int
+var atomicSites, onceSites int
 
 const atomHelpers = `func verifAtom01[R any](site uint32, f func() R) R { verifStep(site); return f() }
 func verifAtom10[A any](site uint32, f func(A), a A) { verifStep(site); f(a) }
@@ -707,10 +713,76 @@ func verifYield(site uint32, _ ...any) { verifStep(site) }
 
 `
 
+// once.Do(f) becomes verifOnceDo(site, &once, f). The real Do must never be
+// contended (a caller waiting inside the runtime for a task the simulator has
+// parked would block the whole simulation), and its function must be allowed
+// to lose the processor like any other code (it may take locks other callers
+// hold). So the simulator keeps its own record of which Once is running: the
+// first caller runs the real Do, callers that arrive while it runs wait at a
+// yielding spin site, callers that arrive afterwards go through the real
+// Do's fast path (which also gives the race detector the happens-before edge
+// the real program has). The record is a small slice accessed only by the
+// task that holds the processor, in functions the detector does not see.
+const onceHelper = `type verifOnceRec struct {
+	o     *sync.Once
+	state int // 1 running, 2 done
+}
+
+var verifOnces []verifOnceRec
+
+//go:norace
+func verifOnceEnter(o *sync.Once) int {
+	for i := range verifOnces {
+		if verifOnces[i].o == o {
+			return verifOnces[i].state
+		}
+	}
+	if len(verifOnces) > 1024 {
+		// forget finished ones (their Do is a no-op anyway)
+		k := 0
+		for _, r := range verifOnces {
+			if r.state == 1 {
+				verifOnces[k] = r
+				k++
+			}
+		}
+		verifOnces = verifOnces[:k]
+	}
+	verifOnces = append(verifOnces, verifOnceRec{o, 1})
+	return 0
+}
+
+//go:norace
+func verifOnceLeave(o *sync.Once) {
+	for i := range verifOnces {
+		if verifOnces[i].o == o {
+			verifOnces[i].state = 2
+		}
+	}
+}
+
+func verifOnceDo(site uint32, o *sync.Once, f func()) {
+	for {
+		switch verifOnceEnter(o) {
+		case 0:
+			defer verifOnceLeave(o) // as with sync.Once: done even if f panics
+			o.Do(f)
+			return
+		case 2:
+			o.Do(f) // fast path
+			return
+		}
+		verifStep(site) // another caller is inside Do: wait for it
+	}
+}
+
+`
+
 func rewriteAtomics(files []*ast.File) {
 	info := &types.Info{
 		Uses:       map[*ast.Ident]types.Object{},
 		Selections: map[*ast.SelectorExpr]*types.Selection{},
+		Types:      map[ast.Expr]types.TypeAndValue{},
 	}
 	cfg := types.Config{Importer: importer.ForCompiler(fset, "source", nil), Error: func(error) {}}
 	cfg.Check("lib", fset, files, info) // errors are left to the compiler
@@ -761,6 +833,32 @@ func rewriteAtomics(files []*ast.File) {
 					// the original function stays mentioned (its import stays used)
 					call.Args = append([]ast.Expr{&ast.BasicLit{Kind: token.INT, Value: fmt.Sprintf("%d|0x%x", id, uint32(spinFlag))}, call.Fun}, call.Args...)
 					call.Fun = &ast.Ident{Name: "verifYield"}
+					return true
+				}
+				if tf.Pkg().Path() == "sync" && tf.Name() == "Do" && len(call.Args) == 1 {
+					// (*sync.Once).Do: see verifOnceDo in the generated file
+					sel, ok := call.Fun.(*ast.SelectorExpr)
+					if !ok {
+						return true
+					}
+					var key ast.Expr = sel.X
+					if tv, ok := info.Types[sel.X]; ok {
+						if _, isPtr := tv.Type.Underlying().(*types.Pointer); !isPtr {
+							key = &ast.UnaryExpr{Op: token.AND, X: sel.X}
+						}
+					} else {
+						return true
+					}
+					p := fset.Position(call.Pos())
+					rel, err := filepath.Rel(srcRoot, p.Filename)
+					if err != nil {
+						rel = filepath.Base(p.Filename)
+					}
+					id := len(sites)
+					sites = append(sites, site{fmt.Sprintf("%s:%d", rel, p.Line), fn, "once"})
+					onceSites++
+					call.Args = []ast.Expr{&ast.BasicLit{Kind: token.INT, Value: fmt.Sprintf("%d|0x%x", id, uint32(spinFlag))}, key, call.Args[0]}
+					call.Fun = &ast.Ident{Name: "verifOnceDo"}
 					return true
 				}
 				if tf.Pkg().Path() != "sync/atomic" {
